@@ -209,17 +209,19 @@ PROPS['C02'] = {
     'modules': ['MinterProofs.Props.C02', 'MinterProofs.Props.C02More'],
     'theorems': ['Minter.C02_partial_1_13_17_28_29', 'Minter.C02_partial_send', 'Minter.C02_partial_multisend', 'Minter.C02_partial_edit_owner',
                  'Minter.C02_partial_mint', 'Minter.C02_partial_burn', 'Minter.C02_prologue_reject', 'Minter.amountsOk_sound',
-                 # c02 builder (Props/C02More.lean): all commission routes, failure fee, 34 of 37 types, BeginBlock
+                 # c02 builder (Props/C02More.lean): every delivery the model answers (all 37 types, all commission routes), BeginBlock
                  'Minter.planSafe_preserves', 'Minter.primSafe_preserves', 'Minter.fee_preserves', 'Minter.fee_base', 'Minter.fee_bancor', 'Minter.fee_pool',
                  'Minter.calcCommission_sound', 'Minter.C02_failure_fee', 'Minter.C02_settings', 'Minter.C02_deliver_preserves_32_types',
-                 'Minter.C02_add_liquidity', 'Minter.C02_remove_liquidity', 'Minter.C02_begin_preserves', 'Minter.C02_begin_preserves_no_evidence',
+                 'Minter.C02_add_liquidity', 'Minter.C02_remove_liquidity', 'Minter.C02_sell_pool', 'Minter.C02_buy_pool', 'Minter.C02_sell_all_pool',
+                 'Minter.C02_deliver_preserves_all_modelled', 'Minter.routeSellCheck_ids', 'Minter.routeBuyCheck_ids',
+                 'Minter.C02_begin_preserves', 'Minter.C02_begin_preserves_no_evidence',
                  'Minter.c02Oracle_sound', 'Minter.c02State2_wf'],
     'campaigns': [camp('ledger', 16, 200), camp('orders', 8, 100), camp('staking', 8, 100)],
     'mismatch_counts': True,
     'assumptions': [TX_MODEL_NOTE, 'the node\'s own export at every commit (re-read from disk) is the abstraction function for the amountsOk monitor',
-                    'hypotheses of the C02More theorems, all explicit in the statements: OracleSound (bancor oracle answers inside their envelope; C12), 0 <= minReserve / minOrderVolume, TxNonneg (decoded amounts >= 0: RLP), StateWf = candidate ids identify candidates, burnable coins have no reserve, price table >= 0 (PricesNonneg); type 34: floor(sqrt(v0*v1)) <= max supply; type 21: LP volume + minted <= max supply, pools sorted; type 22: sender\'s LP balance < LP volume, pools sorted, coin ids identify coins; BeginBlock with evidence: byzPhaseFits (every slash <= the volume of its coin)',
+                    'hypotheses of the C02More theorems, all explicit in the statements (record DeliverHyps): OracleSound (bancor oracle answers inside their envelope; C12), 0 <= minReserve / minOrderVolume, TxNonneg (decoded amounts >= 0: RLP), StateWf = candidate ids identify candidates (types 8, 27), burnable coins have no reserve (29), price table >= 0 (PricesNonneg; failure fee); PoolsSorted (21-25), CoinIdsWf (22); pool34: floor(sqrt(v0*v1)) <= max supply; supply21: LP volume + minted <= max supply; lock22: sender\'s LP balance < LP volume; BeginBlock with evidence: byzPhaseFits (every slash <= the volume of its coin); preservation of StateWf / PoolsSorted / CoinIdsWf by deliverTx is not proved, hence no block-sequence corollary',
                     'AmountsOk uses the sum semantics of balances (the Boolean monitor is entry-wise; equivalent when balance keys are unique)'],
-    'claim_draft': "Partial. Lean theorems about the transaction model and the BeginBlock model (MinterProofs/Props/C02.lean, C02More.lean), for all states, transactions and oracle answers meeting the stated hypotheses: AmountsOk - no negative balance, reserve, volume, stake, pending update, waitlist entry, frozen fund, pool reserve or order volume; volume <= max supply; reserves of an existing pool > 0 (the Prop form of the executable monitor, amountsOk_sound) - is preserved by checked application of every plan whose primitives write in-range values (planSafe_preserves, primSafe_preserves: the core lemma, with decidable guards); by the commission payment on each route - base coin, bancor reserve (calcCommission_sound from OracleSound), pool without orders (fee_preserves, fee_base, fee_bancor, fee_pool); by EVERY delivery with a non-zero code of all 37 types - prologue rejection, price rejection, handler rejection paying the failure fee, capped or not, by any route (C02_failure_fee, C02_prologue_reject); by every ACCEPTED delivery of the 32 types 1-18, 20, 26-38 with the commission by any route (C02_deliver_preserves_32_types, C02_settings; the earlier base-coin-only forms C02_partial_* remain), of AddLiquidity (21) and RemoveLiquidity (22), also when the commission goes through the pool concerned (C02_add_liquidity, C02_remove_liquidity); and by BeginBlock - unconditionally without evidence, under byzPhaseFits with evidence (C02_begin_preserves_no_evidence, C02_begin_preserves). Coverage table (type x commission route: base / bancor / pool without orders): 32 types accepted: yes/yes/yes; 21, 22 accepted: yes/yes/yes; rejection and failure fee, all 37 types: yes/yes/yes; BeginBlock: yes; accepted SellSwapPool (23), BuySwapPool (24), SellAllSwapPool (25): NO (the per-hop lemma exists, the route induction does not); EndBlock: NO (C19 covers payouts >= 0; C01's block-level theorems cover value, not signs); pools with limit orders: outside the transaction model (C13 has the reserve positivity of order-crossing trades). Where no theorem applies the property is bound by the monitor amountsOk (the same Lean definition) evaluated on the node's export at every commit of every campaign (VIOL C02 negative-or-overflow) and by the model/node correspondence of every transaction. Tie: campaigns ledger, orders, staking. Guards the proofs needed that the handlers do not check (none reachable as far as known, each follows from another invariant): LP supply is never compared with max supply; BurnToken of a bancor-paid gas coin relies on 'burnable coins have no reserve'; RemoveLiquidity keeps reserves positive only through the 1000 locked LP units; the byzantine slash is covered only by conservation.",
+    'claim_draft': "Partial. Lean theorems about the transaction model and the BeginBlock model (MinterProofs/Props/C02.lean, C02More.lean), for all states, transactions and oracle answers meeting the stated hypotheses (record DeliverHyps): AmountsOk - no negative balance, reserve, volume, stake, pending update, waitlist entry, frozen fund, pool reserve or order volume; volume <= max supply; reserves of an existing pool > 0 (the Prop form of the executable monitor, amountsOk_sound) - is preserved by checked application of every plan whose primitives write in-range values (planSafe_preserves, primSafe_preserves: the core lemma, with decidable guards); by the commission payment on each route - base coin, bancor reserve (calcCommission_sound from OracleSound), pool without orders (fee_preserves, fee_base, fee_bancor, fee_pool); and by EVERY delivery deliverTx answers (C02_deliver_preserves_all_modelled): all 37 transaction types, accepted with the commission paid by any of the three routes - the 32 plain types (C02_deliver_preserves_32_types, C02_settings; the earlier base-coin-only forms C02_partial_* remain), AddLiquidity and RemoveLiquidity also when the commission goes through the pool concerned (C02_add_liquidity, C02_remove_liquidity), and the swap routes SellSwapPool, SellAllSwapPool, BuySwapPool of up to five coins over pools without orders (C02_sell_pool, C02_sell_all_pool, C02_buy_pool; 'no pool crossed twice' is proved from the handler's check 710: routeSellCheck_ids, routeBuyCheck_ids; buy routes execute back to front, the invariant carries the temporary debt) - or rejected, with or without the failure fee, capped or not (C02_failure_fee, C02_prologue_reject); and by BeginBlock - unconditionally without evidence, under byzPhaseFits with evidence (C02_begin_preserves_no_evidence, C02_begin_preserves). Coverage table (commission route base / bancor / pool without orders): all 37 types accepted: yes/yes/yes; all 37 types rejected or paying the failure fee: yes/yes/yes; BeginBlock: yes; EndBlock: NO (C19 covers payouts >= 0; C01's block-level theorems cover value, not signs); anything crossing a pool that carries limit orders: NO (outside the transaction model; C13 has the reserve positivity of order-crossing trades). Also not proved: that deliveries preserve the state hypotheses (StateWf, PoolsSorted, CoinIdsWf), hence no theorem over block sequences; byzPhaseFits from conservation. Where no theorem applies the property is bound by the monitor amountsOk (the same Lean definition) evaluated on the node's export at every commit of every campaign (VIOL C02 negative-or-overflow) and by the model/node correspondence of every transaction. Tie: campaigns ledger, orders, staking. Guards the proofs needed that the handlers do not check (none reachable as far as known, each follows from another invariant): LP supply is never compared with max supply; BurnToken of a bancor-paid gas coin relies on 'burnable coins have no reserve'; RemoveLiquidity keeps reserves positive only through the 1000 locked LP units; the byzantine slash is covered only by conservation; BuySwapPool debits each hop before the hop that funds it, so only the final balances are in range.",
 }
 PROPS['C06'] = {
     'level': 'proof', 'registered': False,
